@@ -113,7 +113,7 @@ impl C14 {
         // lax entry points: on the quotient-free presentation and on one that still carries pending
         // unifications (the optic of the quotiented argument either way)
         let lo = LaxOptic(spec.clone());
-        let exploded = explode(f);
+        let exploded = { let e = explode(f); let np = crate::rng::Rng(hash_of(&(spec, f))).perm(e.w.len()); renumber_lax(&e, &np) };
         if !exploded.q.is_empty() {
             ctx.class("lax_argument_with_pending_unifications");
         }
